@@ -465,6 +465,25 @@ func TestC03Sim(t *testing.T) {
 						key = "stuck-two-versions-of-a-name-in-flight-poll-belongs-to-older-version"
 					}
 				}
+				// variant: a chunk cut for the older version's size is still queued when the file is
+				// hashed again; it goes out under the NEW hash and overlaps the new version's own
+				// chunks; the receiver's record then holds overlapping ranges (see C09's finding about
+				// overlapping parts) and the file is sent whole again and again without completing
+				if key == "stuck-after-quiet-period" && len(nvers) >= 2 {
+					var mine []rng
+					for _, wp := range s.wire {
+						if wp.name == name && wp.hash == v.hash {
+							mine = append(mine, rng{wp.beg, wp.end})
+						}
+					}
+					for i := range mine {
+						for j := range mine {
+							if mine[i] != mine[j] && mine[i].b < mine[j].e && mine[j].b < mine[i].e {
+								key = "stuck-chunk-of-older-layout-sent-under-new-hash"
+							}
+						}
+					}
+				}
 			}
 			s.viol("C03", key, "after the last perturbation the system was left alone for %v of simulated time, yet: %s", bound, s.stuckReport())
 		}
